@@ -17,7 +17,19 @@ def test_vcmd_lexer(verbose, n=1500):
         spec = os.path.join(d, 'spec')
         preds = ['all', 'balanced', 'has:a', 'count:%28>=3', 'ntok>=5',
                  'depth>=3', 'hash:3:0,2', 'subseq:%28,%29', 'scoped',
-                 'has:a has:b & !', 'first:assert']
+                 'has:a has:b & !', 'first:assert', 'has:x%23__fresh',
+                 'count:x%23__fresh>=3', 'subseq:declare-const,x%23__fresh']
+        fresh_texts = [
+            '(declare-const x12__fresh Bool)(declare-const x7__fresh Bool)'
+            '(assert (xor x7__fresh x12__fresh))',
+            '(declare-const x12__fresh Bool)(assert (and x12__fresh '
+            'x99__fresh))',
+            '(assert x3__fresh)(declare-const x3__fresh Bool)',
+            '(declare-const x5__fresh Int)(declare-const x5__fresh Int)'
+            '(assert (> x5__fresh 0))',
+            '(declare-fun f () Int)(declare-const x1__fresh Int)'
+            '(assert (= f x1__fresh x1__fresh))',
+        ]
         rules = [realrun.rule(p, exit=i + 1) for i, p in enumerate(preds)]
         log = os.path.join(d, 'log')
         for i in range(n):
@@ -28,6 +40,12 @@ def test_vcmd_lexer(verbose, n=1500):
                                      comment_ends=('\n', '\r\n'))
             if i % 3 == 0:
                 text = gen_smt.random_script(r).text()
+            if i % 7 == 1:
+                # names of the form ddSMT invents (canonicalised for digests
+                # and has/count/subseq, not for scoped)
+                text = r.choice(fresh_texts)
+                if r.random() < 0.5:
+                    text = text.replace('x12__fresh', 'x13__fresh')
             f = os.path.join(d, 'f.smt2')
             with open(f, 'w', newline='') as fh:
                 fh.write(text)
